@@ -15,12 +15,23 @@ func init() {
 		Title: "Aggregation output bypasses the pipeline, cannot loop; drop-raw is exact",
 		Decided: "R1 nothing reachable over the call graph from the consumer of Table.In (DispatchAggregate and every Route.Dispatch/Match below it) validates, order-checks, consults the blacklist / rewriter / aggregator lists of the snapshot, calls AddMaybe or RW.Do, or sends on an aggregator inbox or on Table.In — so aggregate output cannot re-enter an aggregation; " +
 			"R2 the only senders on an aggregator's out channel are in Flush, every construction site passes the table's In channel as out, and the only receiver of Table.In is the goroutine that calls DispatchAggregate; " +
-			"R3 AddMaybe returns true only on paths that passed PreMatch, the confirmed regex-stage match and the send to the worker, and returns false whenever drop-raw is off; matchWithCache returns the cached verdict (not the presence of a cache entry); Table.Dispatch stops at the first true result.",
+			"R3 AddMaybe returns true only on paths that passed PreMatch, the confirmed regex-stage match and the send to the worker, and returns false whenever drop-raw is off; matchWithCache returns the cached verdict (not the presence of a cache entry); Table.Dispatch stops at the first true result; " +
+			"R4 the filters that decide consumption and the routing of aggregates are the configured ones: besides the evaluation order and truth tables of C03.R1–R4, the regex-derived prefix shortcut cannot reject a name the regex matches (C03.R7), the tested byte fields mirror the options (C03.R8), half-built filters are never installed (C03.R5) and runtime updates keep the unnamed options (C03.R6).",
 		NotDecided: "that the filter stages compute the documented predicate (C03); aggregator timing.",
 		Rules: []RuleDef{
 			{ID: "C11.R1", Min: 8, Doc: "bypass and loop freedom: forbidden effects (ValidatePacket, validate.Ordered, RW.Do, AddMaybe, reads of snapshot fields blacklist/rewriters/aggregators, sends on Aggregator.in or Table.In) are unreachable from table.DispatchAggregate over call+defer+go edges", Run: c11r1},
 			{ID: "C11.R2", Min: 5, Doc: "wiring: send sites on Aggregator.out ⊆ Flush; every aggregator.New call passes Table.In (GetIn()/field In) as out; receive sites on Table.In = the table.New goroutine, whose loop body calls DispatchAggregate with the received value", Run: c11r2},
-			{ID: "C11.R4", Min: 20, Doc: "aggregate routing and consumption use the real filters: DispatchAggregate fans out like Dispatch and evaluates route filters on the NAME prefix of the aggregate line; what an aggregation consumes is decided by PreMatch and MatchRegexAndExpand, which together compute the documented conjunction ; the match cache is transparent — keyed by the name itself, entries are the filter's own verdict (rules C01.R1, C03.R1, C03.R2, C03.R3 and C03.R4 evaluated for this property as well)", Run: func(c *Check) { c01r1(c); c03r1(c); c03r2(c); c03r3(c); c03r4(c) }},
+			{ID: "C11.R4", Min: 59, Doc: "aggregate routing and consumption use the real filters: DispatchAggregate fans out like Dispatch and evaluates route filters on the NAME prefix of the aggregate line; what an aggregation consumes is decided by PreMatch and MatchRegexAndExpand, which together compute the documented conjunction ; the match cache is transparent — keyed by the name itself, entries are the filter's own verdict; the filter objects themselves are the configured ones — the static prefix derived from the regex is implied by every match of that regex, the byte fields Match/PreMatch test mirror the options, only completely built filters are installed and a runtime update changes only the named options (rules C01.R1, C03.R1, C03.R2, C03.R3, C03.R4, C03.R5, C03.R6, C03.R7 and C03.R8 evaluated for this property as well)", Run: func(c *Check) {
+				c01r1(c)
+				c03r1(c)
+				c03r2(c)
+				c03r3(c)
+				c03r4(c)
+				c03r5(c)
+				c03r6(c)
+				c03r7(c)
+				c03r8(c)
+			}},
 			{ID: "C11.R3", Min: 3, Doc: "drop-raw exactness: path enumeration of AddMaybe with DropRaw as a path-consistent boolean; matchWithCache's cache-hit return value is the entry's match field; the Dispatcher returns right after AddMaybe == true", Run: c11r3},
 		},
 	})
